@@ -11,6 +11,13 @@
     select coroutine is not recorded), at most once per value;
   * `first.park u` → 0 Ok / 1 Timeout / 2 Canceled: the result the model's `park_timeout` computes for the wake reason
     (unparked / timer) from a clean `para` – a stale `Canceled` (defect F8) or `Timeout` diverges here;
+  * `sweep.park ms` (a `coroutine::park_timeout` that is unparked around its expiry: ends by timer or by unpark) and the
+    probes of fresh coroutines `probe.udp` / `probe.park` → code (a blocking wait that gets its datagram / unpark: the
+    model's result from a clean para is 0), `probe.sem`;
+  * with /verif/pending_hooks/wp-cq3.patch in /repo: `note para.set v` / `note para.get v` (v = 0 empty, 1 TimedOut,
+    2 Canceled) – a modelled wait that really switched out (a kernel tail of the coroutine was seen) must consume the
+    para before it returns (`para.get` present), and what it consumed must be what the model's wait consumes. Without
+    the hooks the trace has no para notes and this part of the tie is absent (nothing else changes).
   * `co.start` / `co.end how` drive spawn and the end (return, panic, cancel while parked);
   * `unwind.yield` / `unwind.sleep` / `unwind.park` → code: blocking calls made by a `Drop` impl while the cancelled
     coroutine unwinds (the model's `u = true` steps; the park's result is checked).
@@ -31,6 +38,8 @@ structure RSt where
   dropped : List Nat := []
   dis : List (Nat × Nat) := []           -- `disable_cancel` depth per coroutine (state = bit + 2·depth)
   preC : List String := []               -- Cancel instances (trace tokens) cancelled before their coroutine's first event
+  sawPara : Bool := false                -- the trace has para notes (hooks of wp-cq3.patch present)
+  pg : List (Nat × Bool × Option Int) := []   -- modelled wait in progress: coroutine ↦ (switched out?, para.get seen with value)
 
 def coName (actor : String) : String :=
   -- `k:c:x#3` / `k:c#2#3` ↦ the coroutine's name
@@ -96,6 +105,23 @@ def hooked (rs : RSt) (ev : Event) : List (Label × RSt × String) :=
          { rs with preC := ev.inst :: rs.preC.filter (· != ev.inst) }, "X.cancel-before-start")]
   | _, _ => other
 
+def pgStart (rs : RSt) (c : Nat) : RSt := { rs with pg := (c, false, none) :: rs.pg.filter (·.1 != c) }
+def pgOf (rs : RSt) (c : Nat) : Bool × Option Int := ((rs.pg.find? (·.1 == c)).map (·.2)).getD (false, none)
+/-- a kernel tail of the coroutine ran: the wait in progress really switched out -/
+def markYield (rs : RSt) (actor : String) : RSt :=
+  if !actor.startsWith "k:" then rs else
+  match (rs.binds.find? (·.1 == coName actor)).map (·.2) with
+  | some c => { rs with pg := rs.pg.map fun p => if p.1 == c then (c, true, p.2.2) else p }
+  | none => rs
+/-- may the wait of `c` return now with the model's result `code`? (it must have consumed the para if it switched out) -/
+def pgOk (rs : RSt) (c : Nat) (code : Int) : Bool :=
+  let (y, g) := pgOf rs c
+  match g with
+  | some v => v == code
+  | none => !(rs.sawPara && y)
+
+/-- what the divergence report shows when a wait returns without having consumed the para -/
+def needGet : Label := { kind := "note", op := "para.get", a1 := .any, res := .any }
 def parkCode : Option (Option Para) → Int
   | some none => 0
   | some (some .timedOut) => 1
@@ -103,7 +129,18 @@ def parkCode : Option (Option Para) → Int
   | none => -1
 
 def cands (rs0 : RSt) (_t : Nat) (ev : Event) : List (Label × RSt × String) :=
-  if ev.kind == "a" then hooked rs0 ev else
+  if ev.kind == "a" then (hooked rs0 ev).map (fun (l, r, n) => (l, markYield r ev.actor, n)) else
+  if ev.kind == "note" then
+    -- para notes (hooks of wp-cq3.patch)
+    let rs1 := { rs0 with sawPara := true }
+    let me : Option Nat := (rs1.binds.find? (·.1 == coName ev.actor)).map (·.2)
+    let rs2 : RSt := match ev.op, me with
+      | "para.get", some c =>
+        (match rs1.pg.find? (·.1 == c) with
+         | some (_, y, none) => { rs1 with pg := (c, y, numOf ev.a1) :: rs1.pg.filter (·.1 != c) }
+         | _ => rs1)
+      | _, _ => rs1
+    [({ kind := "note", op := ev.op }, rs2, "N." ++ ev.op)] else
   if ev.actor == "main" || ev.actor == "t2" then [] else
   let obs (rs : RSt) (nm : String) : List (Label × RSt × String) := [({ kind := ev.kind, op := ev.op }, rs, nm)]
   match threadOf ev.actor with
@@ -191,13 +228,34 @@ def cands (rs0 : RSt) (_t : Nat) (ev : Event) : List (Label × RSt × String) :=
         if s'.pcs c == .unwinding then [({ kind := "ret", op := "unwind.park", a1 := .num (parkCode (s'.sh.lastPark c)) }, { rs with s := s' }, "C.unwind.park/ret")] else []
     | "call", "first.park" =>
       (steps s [(c, .call (.park false)), (c, .go)]).toList.flatMap fun s' =>
-        obs { rs with s := s', park := (c, numOf ev.a1 == some 1) :: rs.park.filter (·.1 != c) } "C.park"
-    | "ret", "first.park" =>
+        obs (pgStart { rs with s := s', park := (c, numOf ev.a1 == some 1) :: rs.park.filter (·.1 != c) } c) "C.park"
+    | "ret", "first.park" | "ret", "probe.park" =>
       match rs.park.find? (·.1 == c) with
       | some (_, unp) =>
-        (steps s [(c, .wake (if unp then .unpark else .timer)), (c, .go), (c, .go)]).toList.map fun s' =>
-          ({ kind := "ret", op := "first.park", a1 := .num (parkCode (s'.sh.lastPark c)) }, { rs with s := s' }, if unp then "C.park/unparked" else "C.park/timeout")
+        (steps s [(c, .wake (if unp then .unpark else .timer)), (c, .go), (c, .go)]).toList.flatMap fun s' =>
+          if pgOk rs c (parkCode (s'.sh.lastPark c)) then
+            [({ kind := "ret", op := ev.op, a1 := .num (parkCode (s'.sh.lastPark c)) }, { rs with s := s' }, if unp then "C.park/unparked" else "C.park/timeout")]
+          else [(needGet, rs, "-")]
       | none => []
+    | "call", "probe.park" =>
+      (steps s [(c, .call (.park false)), (c, .go)]).toList.flatMap fun s' =>
+        obs (pgStart { rs with s := s', park := (c, true) :: rs.park.filter (·.1 != c) } c) "C.probe.park"
+    | "call", "probe.udp" =>
+      (steps s [(c, .call .io), (c, .go)]).toList.flatMap fun s' => obs (pgStart { rs with s := s' } c) "C.probe.udp"
+    | "ret", "probe.udp" =>
+      -- the datagram arrives: an ordinary wake-up; the io call reads the para (`co_io_result`)
+      (steps s [(c, .wake .unpark), (c, .go), (c, .go)]).toList.flatMap fun s' =>
+        if pgOk rs c (parkCode (s'.sh.lastPark c)) then
+          [({ kind := "ret", op := "probe.udp", a1 := .num (parkCode (s'.sh.lastPark c)) }, { rs with s := s' }, "C.probe.udp/ret")]
+        else [(needGet, rs, "-")]
+    | "call", "probe.sem" | "ret", "probe.sem" => obs rs "C.obs"
+    | "call", "sweep.park" =>
+      (steps s [(c, .call (.park false)), (c, .go)]).toList.flatMap fun s' => obs (pgStart { rs with s := s' } c) "C.sweep.park"
+    | "ret", "sweep.park" =>
+      -- ended by the timer or by the sweeping unpark (or by both: the para decides what the wait consumed)
+      [Wake.unpark, Wake.timer].flatMap fun w =>
+        (steps s [(c, .wake w), (c, .go), (c, .go)]).toList.flatMap fun s' =>
+          if pgOk rs c (parkCode (s'.sh.lastPark c)) then obs { rs with s := s' } (if w == .timer then "C.sweep.park/timer" else "C.sweep.park/unpark") else [(needGet, rs, "-")]
     | _, _ => []
 
 def machine : Machine where
@@ -212,6 +270,6 @@ def machine : Machine where
     | none => none
   where_ := fun rs _ => s!"coroutines={rs.nextC} values={rs.s.sh.nextV}"
   atEnd := fun _ => none
-  skip := fun e => e.kind == "note"
+  skip := fun e => e.kind == "note" && !e.op.startsWith "para."
 
 end MayVerif.Local
